@@ -23,6 +23,7 @@ pub mod c18;
 pub mod c19;
 pub mod c20;
 pub mod hist;
+pub mod soak;
 
 pub struct Prop {
     pub id: &'static str,
